@@ -16,7 +16,7 @@ RULE = ("Uniquely named sequences (2..25, generated sets) and two alignments of 
         "Non-trivial = 0 < score < 100; class identical_up_to_order_and_gap_columns.")
 ASSUMPTIONS = ["files contain at least one gap character (a gap-free file is by design not recognised as an alignment)",
                "names unique, from [A-Za-z0-9_.|-], <= 30 characters"]
-BUDGET = {"quick": dict(examples=150, workers=12, seconds=60), "thorough": dict(examples=1200, workers=16, seconds=480)}
+BUDGET = {"quick": dict(examples=800, workers=12, seconds=60), "thorough": dict(examples=1200, workers=16, seconds=480)}
 
 
 def random_alignment(seqs, seed, extra_cols):
